@@ -250,9 +250,19 @@ impl Expr {
                             }
                             Cow::Owned(index.for_type(flags)?)
                         }
-                        Expr::DotLookup { expected_type, .. } => {
+                        Expr::DotLookup {
+                            lhs: receiver,
+                            expected_type,
+                            ..
+                        } => {
                             if let Some(root) = lhs.root_ident_if_const() {
                                 bail!("cannot reassign using {op} through {root}, which is const")
+                            }
+                            // the members of a module cannot be written from outside, whatever name the module goes by
+                            if let TypeLayout::Module(..) =
+                                receiver.for_type(flags)?.disregard_distractors(false)
+                            {
+                                bail!("cannot reassign using {op} to a member of a module")
                             }
                             Cow::Borrowed(expected_type)
                         }
